@@ -234,12 +234,19 @@ def mGet (s : State) (r : String) (arg : String) (accept : List String) (head : 
         | none => (s, { status := 404, code := "MANIFEST_BLOB_UNKNOWN" })
         | some content => (s, serve s content rng head dg.str d.mt)
 
+/-- `indexOnlyReferrerResponse`: every index entry with the digest is the referrers response of a subject -/
+def onlyResponse (ix : Index) (dig : String) : Bool :=
+  let es := ix.manifests.filter (·.dig = dig)
+  !es.isEmpty ∧ es.all (fun d => !d.ann.isNil ∧ d.ann.subj ≠ "")
+
 def mDel (s : State) (r : String) (arg : String) : State × Resp :=
   let s := s.setRepo (s.repo r)
   let rp := s.repo r
   match getDesc rp.index arg with
   | none => (s, { status := 404, code := "MANIFEST_UNKNOWN" })
   | some desc =>
+    -- a referrers response is maintained by the registry, it is not deleted as a manifest
+    if !isTag arg ∧ onlyResponse rp.index desc.dig then (s, { status := 404, code := "MANIFEST_UNKNOWN" }) else
     -- referrers: drop the entry from the subject's response
     let s1 :=
       if !s.conf.ref ∨ isTag arg then s else
